@@ -293,3 +293,37 @@ Proof.
     apply andb_true_iff in H. destruct H as [H1 H2]. split; [exact H1|].
     intros Hr. destruct r; [exact H2|congruence].
 Qed.
+
+(* ---- a channel send is never a fault position ---- *)
+Lemma calls_faultable : forall A (p : cprog A) w k c, In c (calls_of p w k) -> is_faultable c = true.
+Proof.
+  intros A p. induction p as [a|c0 q IH]; intros w k c Hin; cbn [calls_of] in Hin; [destruct Hin|].
+  destruct (is_faultable c0) eqn:E.
+  - destruct Hin as [<-|Hin]; [exact E|].
+    destruct k as [[|j]|]; [eapply IH; eauto| |]; destruct (exec w c0) as [w' r]; eapply IH; eauto.
+  - destruct (exec w c0) as [w' r]; eapply IH; eauto.
+Qed.
+
+Lemma is_send_at_false : forall A (p : cprog A) w k, is_send_at p w k = false.
+Proof.
+  intros A p w k. unfold is_send_at. destruct (nth_error (calls_of p w None) k) as [c|] eqn:E; [|reflexivity].
+  apply nth_error_In in E. apply calls_faultable in E. destruct c; try reflexivity. discriminate.
+Qed.
+
+(* C12 (and the usage invariant, usage <= capacity) for EVERY fault position of every create scenario *)
+Theorem create_scenarios_every_k : forall w o, (w = busy3 \/ w = base3) -> In o create_ops ->
+  forall k, c12_check (prep w o) o (fst (final (script_of o) (prep w o) k)) = true.
+Proof.
+  intros w o Hw Ho [k|].
+  - apply create_scenarios_all_k; auto. apply is_send_at_false.
+  - assert (Hs : create_sweep_one w o = true).
+    { destruct create_sweeps as [H1 H2]. destruct Hw as [-> | ->]; [rewrite forallb_forall in H1; apply H1|rewrite forallb_forall in H2; apply H2]; exact Ho. }
+    unfold create_sweep_one in Hs. apply andb_true_iff in Hs. tauto.
+Qed.
+
+(* C30 for EVERY fault position outside the clean-up itself, every run-and-wait scenario *)
+Theorem lambda_scenarios_every_k : forall o, In o lambda_ops ->
+  forall k, match addr_of (script_of o) (prep busy3 o) k with Some f => in_cleanup f | None => false end = false ->
+  c30_check (prep busy3 o) o (waited_of (script_of o) (prep busy3 o) (Some k))
+            (fst (final (script_of o) (prep busy3 o) (Some k))) = true.
+Proof. intros o Ho k Hc. apply lambda_scenarios_all_k; auto. apply is_send_at_false. Qed.
